@@ -1,5 +1,5 @@
 \* legacy trie, exhaustive: H = 3 (8 keys), values {1,2}, <= 4 Put calls, Commit/Reopen anywhere
-\* measured: see evidence (about 45 k distinct states)
+\* measured: 115 395 distinct states (13 s, 4 workers)
 CONSTANTS
   H = 3
   MaxV = 2
